@@ -83,22 +83,20 @@ def run(rep, tier, seed, replay_file=None):
             bc.run_asis(rep, ["unsub"])
     # 2. model -> code: driver schedules of BrokerStep, executed on the real broker, judged by BrokerTrace
     with bc.phase(rep, "schedule-generation"):
-        scheds, _ = bc.gen_schedules(rep, quick, seed, 2200 if quick else 9000)
+        scheds, _ = bc.gen_schedules(rep, quick, seed, 1500 if quick else 9000)
     with bc.phase(rep, "schedule-execution"):
         hists = bc.run_schedules(rep, binary, scheds, 12, seed, "broker/sched") if scheds else []
-    if hists:
-        with bc.phase(rep, "trace-validation"):
-            bc.judge_delivery(rep, hists, "broker/sched")
-        rep.sample(dict(kind="driver schedule (BrokerStep) executed with observation at quiescence", schedule=scheds[len(scheds) // 2]))
-        rep.sample(dict(kind="recorded history judged by BrokerTrace", events=max(hists[:200], key=len)[:30]))
     # 3. code -> model: random concurrent drivers
     with bc.phase(rep, "recorder"):
-        rec = bc.record(rep, binary, 600 if quick else 6000, seed)
-    if rec:
-        with bc.phase(rep, "trace-validation"):
-            bc.judge_delivery(rep, rec, "broker/record")
-    else:
+        rec = bc.record(rep, binary, 480 if quick else 6000, seed)
+    if not rec:
         rep.infra_error("recorder produced no history")
+    if hists or rec:
+        with bc.phase(rep, "trace-validation"):
+            bc.judge_delivery(rep, hists + rec, "broker/history")
+    if hists:
+        rep.sample(dict(kind="driver schedule (BrokerStep) executed with observation at quiescence", schedule=scheds[len(scheds) // 2]))
+        rep.sample(dict(kind="recorded history judged by BrokerTrace", events=max(hists[:200], key=len)[:30]))
     # 4. the binding is not vacuous
     with bc.phase(rep, "self-tests"):
         bc.mutate_selftests(rep, hists + rec, SELFTESTS)
